@@ -379,7 +379,7 @@ REG.contract(
             RaiseSpec("InvalidScheduleError", lambda s: And(s.new_schedule.keys.len > 0, all_known(s, s.self, s.new_schedule),
                                                              Not(equal_lengths(s.new_schedule))), iff=True, unchanged=True)],
     modifies=[("Simulator.pilot_signals", lambda s: [s.self]), "warnings"],
-    ensures=[C("C04.overlay", _us_post, props=("C04",))],
+    ensures=[C("C04.overlay", _us_post, props=("C04", "C10"))],      # keyed by station id: independent of the order of the mapping's entries
     loops={0: LoopSpec(invariant=lambda s: [("prefix_known", AllIdx(0, s._k, lambda i: s.self.network._EVSEs.has(s.new_schedule.keys[i])))])},
     # of the feasibility check only two structural facts matter here (the verdict merely decides whether a warning is issued)
     extra=dict(callee_views={"acnportal.acnsim.network.charging_network.ChargingNetwork.is_feasible": ("C06.no_constraints", "C06.no_periods")}),
